@@ -498,6 +498,7 @@ type FuncSpec struct {
 	Trusted   bool // lib contract (never verified against a body)
 	File      string
 	Lemmas    []*Clause
+	AssumeSafe []string // source-line anchors whose automatic safety obligations are assumed (listed as assumptions)
 	Preserves []string // without a modifies clause: type names whose heap components this function does not write (unchecked at call sites of unverified callees; checked when the function is verified)
 	Acquires  []Expr // locks held on return that were not held on entry (x.mu)
 	Releases  []Expr // locks held on entry and released before return
@@ -849,6 +850,13 @@ func parseSpecLines(lines []specLine, pkg string, file string, trusted bool) (*S
 				curCallee.MutGhosts = append(curCallee.MutGhosts, splitList(rest)...)
 			} else {
 				cur.MutGhosts = append(cur.MutGhosts, splitList(rest)...)
+			}
+		case "assume-safe":
+			// assume-safe "<anchor text>" reason...
+			r := strings.TrimSpace(rest)
+			if strings.HasPrefix(r, "\"") {
+				j := strings.Index(r[1:], "\"")
+				cur.AssumeSafe = append(cur.AssumeSafe, r[1:1+j])
 			}
 		case "option":
 			k, v := splitWord(rest)
